@@ -212,6 +212,8 @@ type SigningKey struct {
 	KID  string
 	Priv *ecdsa.PrivateKey
 	Cert *x509.Certificate
+	// Chain holds further certificates published with the key (x5c: leaf first, then its issuers)
+	Chain []*x509.Certificate
 }
 
 // NewKey creates a key; with notAfter != nil a certificate valid from one hour ago until notAfter.
@@ -245,7 +247,7 @@ func JWKS(keys ...*SigningKey) []byte {
 	for _, k := range keys {
 		j := jose.JSONWebKey{Key: &k.Priv.PublicKey, KeyID: k.KID, Algorithm: "ES256", Use: "sig"}
 		if k.Cert != nil {
-			j.Certificates = []*x509.Certificate{k.Cert}
+			j.Certificates = append([]*x509.Certificate{k.Cert}, k.Chain...)
 		}
 		set.Keys = append(set.Keys, j)
 	}
